@@ -2,7 +2,8 @@
 C02: "a rejection names its cause".  A buffer that is malformed in two ways has two true causes and
 the statement does not say which one is named; the code names the one its checks meet first.
 `Spec.causes b` lists every cause that is true of `b` at the point where it stops being well-formed:
-all header-level causes, or — with a sound header — all violations of the first attribute that has any.
+all header-level causes, or — with a sound header — all violations of all attributes up to the first one
+that cannot be delimited.
 `Props/C02Causes.lean` proves that the parser's error is always one of them and that the list is empty
 exactly for accepted buffers; the correspondence run accepts any member of the list from the
 implementation (a different member than the model's is counted as drift, not as a disagreement).
@@ -34,17 +35,20 @@ def attrCauses (orig data : Bytes) (off : Nat) (seen : List Nat) : List PErr × 
       else []
     (order ++ size ++ fp, some attr)
 
-/-- walk the attributes until one has a violation -/
+/-- walk the attributes and collect the violations of every attribute, for as long as the attributes can
+    be delimited (a check that is deferred — e.g. the FINGERPRINT comparison done after the walk — may
+    meet a later violation first): stop at the first attribute that cannot be delimited or does not fit -/
 def walkCauses : Nat → Bytes → Bytes → Nat → List Nat → List PErr
   | 0, _, _, _, _ => []
   | fuel + 1, orig, data, off, seen =>
     if data.isEmpty then [] else
     match attrCauses orig data off seen with
-    | (c :: cs, _) => c :: cs
-    | ([], none) => []
-    | ([], some attr) =>
-      let seen' := if endingTypes.contains attr.ty then seen ++ [attr.ty] else seen
-      walkCauses fuel orig (data.drop attr.paddedLen) (off + attr.paddedLen) seen'
+    | (cs, none) => cs
+    | (cs, some attr) =>
+      if attr.paddedLen > data.length then cs
+      else
+        let seen' := if endingTypes.contains attr.ty then seen ++ [attr.ty] else seen
+        cs ++ walkCauses fuel orig (data.drop attr.paddedLen) (off + attr.paddedLen) seen'
 
 /-- every true cause at the point where `b` stops being a well-formed message; `[]` iff well-formed -/
 def causes (b : Bytes) : List PErr :=
